@@ -22,7 +22,7 @@ def check(ctx):
     proved = ctx.prove("props/C02.v", ["proofs/PolyDomainFacts.v", "proofs/TacticsFacts.v", "proofs/AlgebraSound.v", "proofs/WrapGenQuotient.v"])
     ctx.build(["model/PolyDomain.vo", "base/Farkas.vo"])
     rng = random.Random(ctx.seed + 2)
-    n = (150 if ctx.quick else 3000) * (1 if proved else 3)
+    n = (150 if ctx.quick else 6000) * (1 if proved else 3)
     exprs, cases, jobs, seen = [], [], [], set()
     hist = {"refines_branch_true": 0, "refines_branch_false": 0}
     for k in range(n):
